@@ -20,7 +20,7 @@ EXHAUSTIVE = True
 SHARDS = {"quick": 8, "thorough": 16}
 DEADLINE = {"quick": 50, "thorough": 420}
 REQUIRED = {"layout:calls": 2000, "layout:class:plain": 100, "layout:class:one-child": 500, "layout:repeat-compared": 500,
-            "layout:mirror-compared": 500, "inv:y": 1000, "inv:bounds": 1000, "layout:subtree-with-parent": 200, "layout:default-units-after-explicit-ones": 200, "layout:measure-then-edit-then-layout": 200, "layout:detached-subtree": 200, "layout:ids:same": 100, "layout:ids:eq-by-value": 100, "layout:ids:pool3": 100, "layout:ids:clone": 100, "inv:centre": 500, "inv:sep": 500}
+            "layout:mirror-compared": 500, "inv:y": 1000, "inv:bounds": 1000, "layout:subtree-with-parent": 200, "layout:extreme-units": 10, "layout:default-units-after-explicit-ones": 200, "layout:measure-then-edit-then-layout": 200, "layout:detached-subtree": 200, "layout:ids:same": 100, "layout:ids:eq-by-value": 100, "layout:ids:pool3": 100, "layout:ids:clone": 100, "inv:centre": 500, "inv:sep": 500}
 EPS = 1e-9
 
 
@@ -55,25 +55,27 @@ def geometry(root, ux, uy, m):
     for n, d in seq:
         if n.y is None or n.x is None:
             return [("assigned", "a node has no coordinates")]
+    # tolerances are relative to the unit in use (grids of 1e-10 and of 1e12 are both legitimate)
+    ex, ey = EPS * abs(ux), EPS * abs(uy)
     for n, d in seq:
-        if abs(n.y - d * uy) > EPS * max(1, abs(d * uy)):
+        if abs(n.y - d * uy) > ey * max(1, d):
             bad.append(("y", f"node at depth {d} has y={n.y} (unit {uy})"))
             break
     for n, d in seq:
-        if n.left is not None and not n.left.x < n.x - EPS:
+        if n.left is not None and not n.left.x < n.x - ex:
             bad.append(("left", f"left child at x={n.left.x} is not left of its parent at x={n.x}"))
             break
     for n, d in seq:
-        if n.right is not None and not n.right.x > n.x + EPS:
+        if n.right is not None and not n.right.x > n.x + ex:
             bad.append(("right", f"right child at x={n.right.x} is not right of its parent at x={n.x}"))
             break
     for n, d in seq:
-        if n.left is not None and n.right is not None and abs(n.x - (n.left.x + n.right.x) / 2) > EPS * max(1, abs(n.x)):
+        if n.left is not None and n.right is not None and abs(n.x - (n.left.x + n.right.x) / 2) > max(ex, EPS * abs(n.x)):
             bad.append(("centre", f"parent at x={n.x} is not centred over children at {n.left.x}, {n.right.x}"))
             break
     last = {}
     for n, d in seq:
-        if d in last and not n.x - last[d] >= ux - EPS * max(1, ux):
+        if d in last and not n.x - last[d] >= ux - max(ex, EPS * abs(n.x)):
             bad.append(("sep", f"level {d}: x={last[d]} then x={n.x} (unit {ux})"))
             break
         last[d] = n.x
@@ -86,7 +88,7 @@ def geometry(root, ux, uy, m):
     want["centerY"] = want["minY"] + want["height"] / 2
     for k, v in want.items():
         g = getattr(m, k, None)
-        if g is None or abs(g - v) > EPS * max(1, abs(v)):
+        if g is None or abs(g - v) > max(EPS * abs(v), ex if k in ("minX", "maxX", "width", "centerX") else ey):
             bad.append(("bounds", f"measurement.{k}={g} but the bounding box gives {v}"))
             break
     return bad
@@ -276,7 +278,7 @@ def drive_shape(rec, s, units, fac=None, ids="fresh"):
         rec.ev()
         rec.arm("layout:repeat-compared")
         second = coords(t)
-        if any(abs(a[0] - b[0]) > EPS or abs(a[1] - b[1]) > EPS for a, b in zip(first, second)):
+        if any(abs(a[0] - b[0]) > EPS * abs(ux) or abs(a[1] - b[1]) > EPS * abs(uy) for a, b in zip(first, second)):
             rec.violation("C18", f"layout/repeat/{cls1}", "laying out the same tree again gives different coordinates",
                           {"shape": shp, "ux": ux, "uy": uy, "class": cls1, "ids": ids, "summary": f"layout of shape {shp[:80]} twice (units {ux},{uy}; {cls1}): {first[:6]} then {second[:6]}"})
         # the mirror image
@@ -300,7 +302,7 @@ def drive_shape(rec, s, units, fac=None, ids="fresh"):
             return [(a, b)] + mirrored_pairs(a.left, b.right) + mirrored_pairs(a.right, b.left)
 
         for a, b in mirrored_pairs(t2, tm):
-            if abs(a.x + b.x) > EPS * max(1, abs(a.x)) or abs(a.y - b.y) > EPS:
+            if abs(a.x + b.x) > EPS * max(abs(ux), abs(a.x)) or abs(a.y - b.y) > EPS * max(abs(uy), abs(a.y)):
                 rec.violation("C18", f"layout/mirror/{cls}", "the mirrored tree does not get mirrored coordinates",
                               {"shape": shp, "ux": ux, "uy": uy, "class": cls, "ids": ids,
                                "summary": f"shape {shp[:80]} vs its mirror (units {ux},{uy}; {cls}): a node at x={a.x} corresponds to x={b.x}"})
@@ -308,6 +310,8 @@ def drive_shape(rec, s, units, fac=None, ids="fresh"):
 
 
 UNITS = [(1, 1), (2, 3), (0.5, 0.25), (10, 7)]
+# the units are plain numbers: very fine and very coarse grids too
+EXTREME_UNITS = [(2 ** -31, 2 ** -31), (2.5e-10, 1), (1, 4e-12), (1e-6, 1e-9), (1e9, 1e12), (2 ** 40, 2 ** -40), (1e-300, 1e300)]
 
 
 def run(rec, cfg):
@@ -331,6 +335,10 @@ def run(rec, cfg):
         if idx % 211 == 0:
             rec.sample({"shape": W9.shape_str(s), "nodes": W9.count(s), "units": units})
     rec.notes["exhaustive_bound_nodes"] = nmax
+    for j, s in enumerate(W9.all_shapes_upto(5)):
+        if cfg.mine(j):
+            drive_shape(rec, s, [EXTREME_UNITS[j % len(EXTREME_UNITS)], EXTREME_UNITS[(j + 3) % len(EXTREME_UNITS)]])
+            rec.arm("layout:extreme-units")
     # full binary trees up to 15 nodes (7 inner nodes), all of them
     k = 0
     for inner in range(0, 8):
